@@ -247,11 +247,8 @@ def needD (i : Instr) (s : St) : Nat :=
   | .assign => 2
   | .popUntilMark l => markNeed l s.data
   | .clearMark l => markNeed l s.data
-  | .prepareCall x nargs =>
-    if coreBuiltins.contains x then 0
-    else match lexLookup s x with
-      | some (_, .fn f) => if (fnOf s f).varargs then nargs - (fnOf s f).nargs else 0
-      | _ => 0
+  | .prepareCall _ nargs =>                    -- the surplus arguments of a variadic running function
+    if !(fnOf s s.curfunc).user && (fnOf s s.curfunc).varargs then nargs - (fnOf s s.curfunc).nargs else 0
   | _ => 0
 
 /-- scopes an instruction may pop -/
@@ -379,19 +376,21 @@ theorem exec_simple_eff (f : Nat) (i : Instr) (s : St) (hs : simple i = true) :
     eff_by (eff_bind (eff_incPc s) (fun _ s1 _ => hk s1))
   | prepareCall x nargs =>
     rw [exec]
+    simp only [run_bind, run_get, needD, needL, needA]
+    by_cases hv : (!(fnOf s s.curfunc).user && (fnOf s s.curfunc).varargs) = true
+    · simp only [hv, if_true]
+      eff_by (eff_bind (eff_wrangleOptargs _ _ s) (fun _ s1 _ => eff_incPc s1))
+    · simp only [hv, if_false, Bool.false_eq_true]
+      eff0
+  | tailGuard x skip =>
+    show Eff 0 0 0 s _
+    rw [exec]
     simp only [run_bind, run_get]
-    by_cases hb : coreBuiltins.contains x = true
-    · simp only [needD, needL, needA, hb, if_true]; eff0
-    · simp only [needD, needL, needA, hb, if_false]
-      rcases hl : lexLookup s x with _ | ⟨id, v⟩
+    split
+    · split
       · eff0
-      · cases v with
-        | fn f =>
-          dsimp only
-          by_cases hv : (fnOf s f).varargs = true <;> simp only [hv, if_true, if_false, Bool.false_eq_true]
-          · eff_by (eff_bind (eff_wrangleOptargs _ _ s) (fun _ s1 _ => eff_incPc s1))
-          · eff0
-        | _ => eff0
+      · simp only [run_set]; eff0
+    · simp only [run_set]; eff0
   | pushLazy e =>
     show Eff 0 0 0 s _
     rw [exec]
